@@ -8,10 +8,15 @@ k_unit = KaniUnit("c11_k", CORE, modules=[dict(file=F, src="c11_container.rs")],
 k_unit.native_witnesses = ["c11_wit_seven_keys", "c11_wit_new_unique"]
 v_unit = VerusUnit("c11_container", "c11_container", rlimit=60, paired_kani=(k_unit, []))
 sm = VerusUnit('c03_statemodel', 'c03_statemodel', rlimit=60)
-UNITS = [v_unit, sm, k_unit]
+ew = KaniUnit("c11_extend_wit", CORE, modules=[dict(file=CORE + "/src/model/state/state_model.rs", src="c11_extend_wit.rs")], harnesses=[])
+ew.native_witnesses = ["c11_wit_extend_overrides_in_place", "c11_wit_extend_by_nothing_is_identity"]
+ex = VerusUnit("c11_extend", "c11_extend", rlimit=30, paired_kani=(ew, []))
+UNITS = [v_unit, sm, ex, k_unit, ew]
 EXPLANATION = ("CompactOrderedHashMap::{empty,len,is_empty,contains_key,get,get_index,insert} extracted verbatim and verified by Verus at every size "
-               "against an abstract (slot map, value map) view with a whole-view postcondition for insert; representation invariant: slots < len, pairwise distinct")
+               "against an abstract (slot map, value map) view with a whole-view postcondition for insert; representation invariant: slots < len, pairwise distinct; "
+               "StateModel::extend (verbatim, Verus, any number of entries): the per-query model is the configured container with every declared (name, feature) inserted in order -- an existing name keeps its slot "
+               "and takes the declared feature, new names are appended; refused exactly when a declaration meets a same-named feature that differs under StateFeature's ==; StateModel accessors: frame (unit c03_statemodel)")
 NOT_DECIDED = ("get_pair / keys / iter / to_vec / new on the HashMap-backed representation (sizes >= 5) are only exercised by concrete witnesses "
-               "(Verus rejects their iterator-adapter text, CBMC cannot carry symbolic HashMap keys); StateModel on top of the container; collect_features")
+               "(Verus rejects their iterator-adapter text, CBMC cannot carry symbolic HashMap keys); StateModel::new / initial_state / iter (iterator adapters; witnesses); the clone pipeline at the head of extend (assumed equal container; witness); collect_features")
 ASSUMPTIONS = ["R6: key and value types instantiated at u64 (Eq/Hash/Clone laws of the real key types String/EdgeId assumed)",
                "assumed contract of std HashMap::from([(K,V); N]) (inserts the pairs in order)"]
